@@ -2,6 +2,7 @@ package world
 
 import (
 	"bytes"
+	"encoding/json"
 	"sort"
 	"strings"
 
@@ -72,7 +73,16 @@ func (w *World) Canon(a Act) Act {
 	if a.S("k") != "Claim" {
 		return a
 	}
-	ev, err := w.BuildEvent(a.S("chain"), a.M("ev"))
+	evDesc := a.M("ev")
+	if evDesc.Has("ref") {
+		es := w.evmOf(a.S("chain"))
+		k := int(evDesc.I("ref"))
+		if es == nil || k < 1 || k > len(es.Log) {
+			return a
+		}
+		evDesc = jsonAct(es.Log[k-1])
+	}
+	ev, err := w.BuildEvent(a.S("chain"), evDesc)
 	if err != nil {
 		return a
 	}
@@ -82,4 +92,12 @@ func (w *World) Canon(a Act) Act {
 	}
 	out["ev"] = w.ProjectEvent(a.S("chain"), ev)
 	return out
+}
+
+// jsonAct normalises a recorded event (Go values) into the generic JSON form scripts use.
+func jsonAct(j J) Act {
+	bz, _ := json.Marshal(j)
+	var a Act
+	_ = json.Unmarshal(bz, &a)
+	return a
 }
